@@ -9,6 +9,7 @@ import (
 	"fmt"
 	"html"
 	"io"
+	"math"
 	"reflect"
 	"sort"
 	"strconv"
@@ -502,9 +503,9 @@ func showInJS(env *env, out io.Writer, value any) error {
 	case reflect.Uint, reflect.Uint8, reflect.Uint16, reflect.Uint32, reflect.Uint64, reflect.Uintptr:
 		s = strconv.FormatUint(v.Uint(), 10)
 	case reflect.Float32:
-		s = strconv.FormatFloat(v.Float(), 'f', -1, 32)
+		s = formatFloatInJS(v.Float(), 32)
 	case reflect.Float64:
-		s = strconv.FormatFloat(v.Float(), 'f', -1, 64)
+		s = formatFloatInJS(v.Float(), 64)
 	case reflect.String:
 		_, err := w.WriteString("\"")
 		if err == nil {
@@ -705,9 +706,9 @@ func showInJSON(env *env, out io.Writer, value any) error {
 	case reflect.Uint, reflect.Uint8, reflect.Uint16, reflect.Uint32, reflect.Uint64, reflect.Uintptr:
 		s = strconv.FormatUint(v.Uint(), 10)
 	case reflect.Float32:
-		s = strconv.FormatFloat(v.Float(), 'f', -1, 32)
+		s = formatFloatInJSON(v.Float(), 32)
 	case reflect.Float64:
-		s = strconv.FormatFloat(v.Float(), 'f', -1, 64)
+		s = formatFloatInJSON(v.Float(), 64)
 	case reflect.String:
 		_, err := w.WriteString("\"")
 		if err == nil {
@@ -939,6 +940,30 @@ func showInMarkdownCodeBlock(env *env, out io.Writer, value any, spaces bool) er
 	}
 	w := newStringWriter(out)
 	return markdownCodeBlockEscape(w, s, spaces)
+}
+
+// formatFloatInJS formats the floating-point number f, with the given bit
+// size, as a JavaScript numeric expression.
+func formatFloatInJS(f float64, bitSize int) string {
+	switch {
+	case math.IsNaN(f):
+		return "NaN"
+	case math.IsInf(f, 1):
+		return "Infinity"
+	case math.IsInf(f, -1):
+		return "-Infinity"
+	}
+	return strconv.FormatFloat(f, 'f', -1, bitSize)
+}
+
+// formatFloatInJSON formats the floating-point number f, with the given bit
+// size, as a JSON value. As JSON cannot represent NaN and the infinities,
+// they are formatted as null.
+func formatFloatInJSON(f float64, bitSize int) string {
+	if math.IsNaN(f) || math.IsInf(f, 0) {
+		return "null"
+	}
+	return strconv.FormatFloat(f, 'f', -1, bitSize)
 }
 
 // showTimeInJS shows a value of type time.Time in a JavaScript context.
